@@ -25,6 +25,15 @@ import (
 
 const verifDir = "/verif"
 
+// outDir is where evidence and replay files go (VERIF_OUT overrides it for
+// sensitivity experiments so that they do not overwrite committed evidence).
+var outDir = func() string {
+	if v := os.Getenv("VERIF_OUT"); v != "" {
+		return v
+	}
+	return verifDir
+}()
+
 type resLine struct {
 	rt.Result
 	RaceReports []string `json:"race_reports,omitempty"`
@@ -539,8 +548,8 @@ func writeEvidence(prop, tier string, seed uint64, b *build, bt *batch, tc tierC
 	ev["coverage"] = cov
 	ev["assumptions"] = assumptionsFor(prop)
 	bs, _ := json.MarshalIndent(ev, "", " ")
-	os.MkdirAll(filepath.Join(verifDir, "evidence"), 0o755)
-	return os.WriteFile(filepath.Join(verifDir, "evidence", prop+".json"), bs, 0o644)
+	os.MkdirAll(filepath.Join(outDir, "evidence"), 0o755)
+	return os.WriteFile(filepath.Join(outDir, "evidence", prop+".json"), bs, 0o644)
 }
 
 func ruleFor(prop string) string {
@@ -700,7 +709,7 @@ func cmdCheck(prop, tier string, seed uint64, repo string) int {
 				min.Scenario = h.line.Scenario
 			}
 			min.Note = fmt.Sprintf("minimised from %d to %d tape entries with %d candidate replays; replay with: ./check replay <this file>", len(rf.Tape), len(min.Tape), tried)
-			dir := filepath.Join(verifDir, "replays", prop)
+			dir := filepath.Join(outDir, "replays", prop)
 			os.MkdirAll(dir, 0o755)
 			p := filepath.Join(dir, slug(key)+".json")
 			bs, _ := json.MarshalIndent(min, "", " ")
